@@ -43,8 +43,11 @@ AnsState(reqs, rtx, ans) ==
           IF k = 0 THEN [r \in DOMAIN reqs |-> 0]
           ELSE LET prev == F[k - 1]
                    a == ans[k]
+                   \* (a request issued by the handler of packet a -- reqs[r].after = a's id, its last byte --
+                   \* did not exist when a was received: a is not its answer)
                    c == {r \in DOMAIN reqs : /\ prev[r] \in {0, Maybe} /\ reqs[r].sess = a.sess /\ reqs[r].n < a.n
-                                              /\ IsPrefix(reqs[r].pat, a.data)}
+                                              /\ IsPrefix(reqs[r].pat, a.data)
+                                              /\ (reqs[r].after = 0 \/ reqs[r].after # a.data[Len(a.data)])}
                    sure == {r \in c : prev[r] = 0 /\ rtx[r].n # 0 /\ rtx[r].n < a.n}
                    top == {r \in sure : \A q \in sure : Len(reqs[q].pat) <= Len(reqs[r].pat)}
                    picks == top \cup {r \in c \ sure : \A q \in sure : Len(reqs[q].pat) < Len(reqs[r].pat)}
